@@ -120,6 +120,50 @@ def _hexdigest(cname):
     return n, res
 
 
+def _read_faults(cname):
+    """get_hex_digest under a failing read: every raw read of the object, in turn, fails once with EIO / ESTALE / EAGAIN
+    (the last two are what a 'retry on a transient error' loop would pick up).  The call may raise; a value it returns
+    must be the true digest."""
+    import errno
+    from .. import engine_f, env, tscen
+    from ..common import Inputs, snapshot
+    from ..specs import make_store
+    env.install()
+    data = CONTENTS[cname]
+    inputs = Inputs({cname: data}, "c02rf-" + cname)
+    ctx = O.Ctx(inputs)
+    root = os.path.join(common.scratch(), "c02-rf-" + cname)
+    common.restore(root, {})
+    os.rmdir(root)
+    store = make_store(root, tscen.P, {"USE_MULTIPROCESSING": "False"})
+    store.store_object("h", inputs.path(cname))
+    init = snapshot(root)
+    res, n = [], 0
+    for algo in ("sha256", "md5", "sha3_256"):
+        op = ("hexdigest", "h", algo)
+        base = engine_f.run_call(root, init, tscen.P, op, ctx)
+        true = hashlib.new(algo, data).hexdigest()
+        if base.outcome != ("ok", true):
+            res.append(({"kind": "value", "part": "read-faults", "what": "get_hex_digest without a fault is not the true digest"},
+                        {"content": cname, "algorithm": algo}))
+            continue
+        reads = [i for i, sop in enumerate(base.sites) if sop[0] == "read"]
+        # every read site for the small content; first, second, middle, last-but-one and last for the large one
+        pick = reads if len(reads) <= 12 else sorted({reads[0], reads[1], reads[len(reads) // 2], reads[-2], reads[-1]})
+        for i in pick:
+            for en in (errno.EIO, errno.ESTALE, errno.EAGAIN):
+                r = engine_f.run_call(root, init, tscen.P, op, ctx, fault=(i, en, False, "any"))
+                if not r.injected:
+                    continue
+                n += 1
+                if r.outcome[0] == "ok" and r.outcome[1] != true:
+                    res.append(({"kind": "value", "part": "read-faults",
+                                 "what": "get_hex_digest returned a value that is not the true digest after a read failed once"},
+                                {"content": cname, "algorithm": algo, "errno": errno.errorcode[en], "read_site": i,
+                                 "reads": len(reads)}))
+    return n, res
+
+
 class C02Spec(ModelSpec):
     prop = "C02"
     pids = ("p", "q", "r")
@@ -170,6 +214,12 @@ def main(tier):
         nh += cnt
         for sig, det in res:
             rep.violation(sig, det)
+    nrf = 0
+    for cnt, res in pmap(_read_faults, ["m", "big"]):
+        nrf += cnt
+        for sig, det in res:
+            rep.violation(sig, det)
+    rep.coverage["read_fault_runs"] = nrf
     from .c01 import _short_writes
     nshort = 0
     for cnt, res in pmap(_short_writes, [(("store", "p", "L", "add:sha224"), "q=B"), (("store", "p", "A", "ok:sha3_256"), "q=A")]):
